@@ -7,8 +7,8 @@
 From Coq Require Import Lia ZifyBool ZifyN ZifyNat.
 From Chess Require Import Base.Bits Spec.Geometry Spec.Rules Model.Board Gen.Consts.
 From Chess Require Import Proofs.BitsFacts Proofs.TablesLib Proofs.AbsBoard Proofs.NullMove
-  Proofs.HashSeparation Proofs.CanonScratch Proofs.StepShape Proofs.StepApply Proofs.StepModel
-  Proofs.StepClean Proofs.StepGeom Proofs.StepLink.
+  Proofs.FiniteFnsEq Proofs.HashSeparation Proofs.CanonScratch Proofs.StepShape Proofs.StepApply Proofs.StepModel
+  Proofs.StepClean Proofs.StepGeom Proofs.StepLink Proofs.StepPass.
 Open Scope N_scope.
 
 (** ** 1. the key sum of a position *)
@@ -33,7 +33,7 @@ Proof. apply key_fold_xsum. Qed.
 
 Lemma key_fold_ext p q : (forall s, s < 64 -> at_ p s = at_ q s) -> key_fold p = key_fold q.
 Proof.
-  intro H. rewrite !key_fold_xsum. apply xsum_ext. intros s Hs. apply In_all_sq in Hs.
+  intro H. rewrite !key_fold_xsum. apply xsum_ext. intros s Hs. apply in_all_sq in Hs.
   rewrite (H s Hs). reflexivity.
 Qed.
 
@@ -41,7 +41,7 @@ Qed.
 Theorem hashok_place_all pcs : HashOK (place_all pcs).
 Proof.
   unfold HashOK. rewrite hash_place_all, key_fold_xsum. unfold pieces_hash.
-  apply xsum_ext. intros s Hs. apply In_all_sq in Hs. rewrite (at_place_all pcs s Hs). reflexivity.
+  apply xsum_ext. intros s Hs. apply in_all_sq in Hs. rewrite (at_place_all pcs s Hs). reflexivity.
 Qed.
 
 Lemma hashok_core a b : same_occ a b -> hash a = hash b -> HashOK b -> HashOK a.
@@ -100,6 +100,12 @@ Proof.
   unfold hfold in *. cbn [fold_left]. rewrite IH, (IH (N.lxor 0 (hk g))). xor_ring.
 Qed.
 
+Lemma hfold_cons g T : hfold (g :: T) 0 = N.lxor (hk g) (hfold T 0).
+Proof.
+  unfold hfold at 1. cbn [fold_left]. fold (hfold T (N.lxor 0 (hk g))).
+  rewrite hfold_shift, N.lxor_0_l. reflexivity.
+Qed.
+
 (** summing the per-square key changes over the board gives the keys of all toggles *)
 Lemma xsum_keys_togs T : Forall (fun g => tog_sq g < 64) T ->
   xsum (fun k => keys k (togs_at k T)) all_sq = hfold T 0.
@@ -110,9 +116,8 @@ Proof.
     rewrite (xsum_ext _ (fun k => N.lxor (if k =? t then zob_piece p k c else 0)
                                          (keys k (togs_at k T)))).
     + rewrite xsum_lxor, IH, (xsum_indicator (fun k => zob_piece p k c) t all_sq NoDup_all_sq)
-        by (apply In_all_sq; exact Ht).
-      unfold hfold at 2. cbn [fold_left]. fold (hfold T (N.lxor 0 (hk (p,t,c)))).
-      rewrite hfold_shift. cbn [hk]. xor_ring.
+        by (apply in_all_sq; exact Ht).
+      rewrite hfold_cons. reflexivity.
     + intros k _. rewrite togs_at_cons, keys_app. destruct (k =? t); [|reflexivity].
       unfold keys at 1. cbn [fold_left fst snd]. rewrite N.lxor_0_l. reflexivity.
 Qed.
@@ -125,7 +130,7 @@ Proof.
   rewrite E in E2. injection E2 as <-.
   unfold HashOK in *. rewrite D2, hfold_shift, Hh, !key_fold_xsum.
   rewrite <- (xsum_keys_togs _ Hlt), <- xsum_lxor. apply xsum_ext.
-  intros k Hk. apply In_all_sq in Hk. cbv beta.
+  intros k Hk. apply in_all_sq in Hk. cbv beta.
   rewrite (at_abs_dec b' k Hk), (S2 k Hk), (at_apply _ _ _ (abs_len b) Hs Hd).
   exact (proj2 (Hcl k)).
 Qed.
@@ -142,7 +147,7 @@ Definition Hspec (p:pos) : N :=
 Lemma cr_of_bits cr : cr < 4 -> cr = cr_of (N.testbit cr 0) (N.testbit cr 1).
 Proof.
   intro H. assert (C : cr = 0 \/ cr = 1 \/ cr = 2 \/ cr = 3) by lia.
-  destruct C as [->|[->|[->|->]]]; reflexivity.
+  destruct C as [ -> | [ -> | [ -> | -> ] ] ]; reflexivity.
 Qed.
 Lemma sq_file_uforward c e : file_of (uforward c e) = sq_file e.
 Proof.
@@ -172,17 +177,6 @@ Qed.
 Record Inv (b:board) : Prop := mkInv {
   inv_cons : Consistent b; inv_hash : HashOK b; inv_crW : crW b < 4; inv_crB : crB b < 4;
   inv_ep : ep_wf b; inv_valid : pos_valid (abs_board b) = true }.
-
-(** passing the turn when not in check keeps a position valid *)
-Lemma pos_valid_pass p : pos_valid p = true -> in_check p (turn p) = false -> pos_valid (pass p) = true.
-Proof.
-  intros H Hc. unfold pos_valid in *.
-  repeat (apply andb_prop in H as [H ?]).
-  change (ep_ok (pass p)) with true.
-  change (in_check (pass p) (opp (turn (pass p)))) with (in_check p (opp (opp (turn p)))).
-  rewrite StepShape.opp_opp, Hc.
-  repeat (apply andb_true_intro; split); try assumption; reflexivity.
-Qed.
 
 (** from any board satisfying the invariant: legal moves (of the abstraction) applied by
     [make_move_new], and null moves made when the side to move is not in check *)
@@ -245,7 +239,7 @@ Proof.
   - intros e Hep. destruct He as [He|[f [Hf He]]]; [congruence|].
     rewrite He in Hep. injection Hep as <-. rewrite Hs. cbn [builder_of_pos bstm bep] in *.
     destruct (ep p0) as [t|]; [|discriminate Hf]. injection Hf as <-.
-    assert (Hf8 : file_of t < 8) by apply SanLinkFree.file_lt8.
+    assert (Hf8 : file_of t < 8) by apply sq_file_lt8.
     split; [apply FiniteFnsEq.mk_sq_lt64|].
     apply FiniteFnsEq.sq_rank_mk_sq; [destruct (opp (turn p0)); cbn; lia|exact Hf8].
   - exact HV.
